@@ -150,6 +150,12 @@ func tryQueueReloadRequest(
 			log.Warnln("[Reload] Reload already in progress or handoff pending; ignoring this signal")
 		}
 		restoreRejectedReloadProgress(reloadActive, false)
+		// The operation that caused this refusal may have completed, and cleared
+		// any Busy report, while this one was being written. Nobody would clear it
+		// afterwards and `dae reload` refuses to signal on a Busy report.
+		if !reloadPending.Load() {
+			clearRejectedReloadProgress()
+		}
 		return false
 	}
 	beginReloadProxyFailureSuppression()
